@@ -1412,6 +1412,15 @@ func (s *Session) CacheClone(v *View) bool {
 		s.Out.Count("clone-refused")
 		return true
 	}
+	if os.Getenv("VERIF_C01_CLONE_GUARD") == "1" && mr2.TOCDigest() != s.MR.TOCDigest() {
+		// for a tree in which Cache(WithReader) refuses a clone whose TOC digest differs from the
+		// TOC digest of the layer object (the repair proposed for clone-prefetch-unverified-toc)
+		err2 := s.VR.CacheReader(mk())
+		s.emit(s.pfx()+"clone.err", okerr(err2))
+		s.Out.Count("clone-foreign-toc-refused")
+		s.CheckCache("clone-prefetch")
+		return true
+	}
 	var items []string
 	taint := false
 	for _, c := range s.Chs {
